@@ -134,3 +134,55 @@ func Context(t *rapid.T, d *xdoc.Doc, rootShare int) *xdoc.Node {
 	}
 	return d.Nodes[rapid.IntRange(0, len(d.Nodes)-1).Draw(t, "ctx")]
 }
+
+// MutateDoc returns a copy of d with 1-3 small edits (a subtree dropped, an
+// element duplicated next to itself, a value or a name changed): a second
+// document on which the same expression from the "same" context node gives a
+// comparable but different answer.
+func MutateDoc(t *rapid.T, d *xdoc.Doc, o DocOpts) *xdoc.Doc {
+	var clone func(n *xdoc.Node) *xdoc.Node
+	clone = func(n *xdoc.Node) *xdoc.Node {
+		c := &xdoc.Node{Kind: n.Kind, Prefix: n.Prefix, Local: n.Local, NS: n.NS, Value: n.Value}
+		for _, a := range n.Attrs {
+			c.Attrs = append(c.Attrs, clone(a))
+		}
+		for _, k := range n.Kids {
+			c.Kids = append(c.Kids, clone(k))
+		}
+		return c
+	}
+	nd := xdoc.NewDoc(clone(d.Root))
+	edits := rapid.IntRange(1, 3).Draw(t, "nedits")
+	for e := 0; e < edits; e++ {
+		if len(nd.Nodes) < 3 {
+			break
+		}
+		n := nd.Nodes[rapid.IntRange(2, len(nd.Nodes)-1).Draw(t, "editnode")]
+		if n.Kind == xpath.AttributeNode {
+			n.Value = rapid.SampledFrom(o.AtVals).Draw(t, "newaval")
+			continue
+		}
+		p := n.Parent
+		switch rapid.IntRange(0, 3).Draw(t, "editkind") {
+		case 0: // drop the subtree
+			p.Kids = append(append([]*xdoc.Node{}, p.Kids[:n.Idx]...), p.Kids[n.Idx+1:]...)
+		case 1: // duplicate it next to itself
+			dup := clone(n)
+			kids := append([]*xdoc.Node{}, p.Kids[:n.Idx+1]...)
+			kids = append(kids, dup)
+			p.Kids = append(kids, p.Kids[n.Idx+1:]...)
+		case 2: // change a value or a name
+			if n.Kind == xpath.ElementNode {
+				n.Local = rapid.SampledFrom(o.ElNames).Draw(t, "newname")
+			} else {
+				n.Value = rapid.SampledFrom(o.Texts).Draw(t, "newtext")
+			}
+		default: // add a child element
+			if n.Kind == xpath.ElementNode {
+				n.Kids = append(n.Kids, &xdoc.Node{Kind: xpath.ElementNode, Local: rapid.SampledFrom(o.ElNames).Draw(t, "addname")})
+			}
+		}
+		nd = xdoc.NewDoc(nd.Root)
+	}
+	return nd
+}
